@@ -126,12 +126,15 @@ func judgeLeaf(t *leafTxn) []finding {
 			if callN[k] > accN[k] {
 				cause, detail := "same-transaction", ""
 				switch {
+				case t.Earlier[k]:
+					cause = "stale-earlier-transaction"
+					detail = "; it was also a recipient of an earlier transaction on the reused connection"
 				case convOfAccepted[k] != "":
 					cause = "converted-collision"
 					detail = fmt.Sprintf("; it is also the next-hop form of accepted recipient %q, whose result was filed here", convOfAccepted[k])
-				case t.Earlier[k] || convOfEarlier[k]:
+				case convOfEarlier[k]:
 					cause = "stale-earlier-transaction"
-					detail = "; it was also a recipient of an earlier transaction on the reused connection"
+					detail = "; it is the next-hop form of a recipient of an earlier transaction on the reused connection"
 				}
 				out = append(out, finding{
 					Sig:  "leaf/duplicate-result/" + t.Kind + "/" + cause,
@@ -142,13 +145,19 @@ func judgeLeaf(t *leafTxn) []finding {
 		}
 		cause := "other"
 		detail := ""
+		// Cause class. A key can fit two classes when both defects are present
+		// (the next-hop form of a current recipient may equal a recipient of an
+		// earlier transaction); a literal earlier recipient is named first.
 		switch {
+		case t.Earlier[k]:
+			cause = "stale-earlier-transaction"
+			detail = " (a recipient of an earlier transaction on the reused connection, not of this one)"
 		case convOfAccepted[k] != "":
 			cause = "converted-address"
 			detail = fmt.Sprintf(" (the next-hop form of accepted recipient %q)", convOfAccepted[k])
-		case t.Earlier[k] || convOfEarlier[k]:
+		case convOfEarlier[k]:
 			cause = "stale-earlier-transaction"
-			detail = " (a recipient of an earlier transaction on the reused connection, not of this one)"
+			detail = " (the next-hop form of a recipient of an earlier transaction on the reused connection)"
 		case supplied[k]:
 			cause = "refused-recipient"
 			detail = " (AddRcpt failed for it in this transaction)"
@@ -201,9 +210,13 @@ func judgeLeaf(t *leafTxn) []finding {
 			})
 		case g.committed > 0 && g.failed == 0 && g.ambiguous == 0 && failN[a] > 0:
 			cause, detail := "other", ""
-			if convOfAccepted[a] != "" {
+			switch {
+			case convOfAccepted[a] != "":
 				cause = "converted-collision"
 				detail = fmt.Sprintf(" (it is the next-hop form of accepted recipient %q, whose failure was filed here)", convOfAccepted[a])
+			case t.Earlier[a] || convOfEarlier[a]:
+				cause = "stale-collision"
+				detail = " (it - or its next-hop form - was also a recipient of an earlier transaction on a reused connection whose current transaction failed)"
 			}
 			out = append(out, finding{
 				Sig:  "leaf/false-failure/" + t.Kind + "/" + cause,
